@@ -121,6 +121,7 @@ pub fn parse_dot(dot: &str) -> Result<Parsed, String> {
 
 /// Compare parsed text with the graph: nodes == keys (ascending), edges == kids, data == model.
 fn compare(what: &str, parsed: &Parsed, s: &Session) -> Option<String> {
+    let real = crate::rec::real_data(s.g.as_ref());
     let ids: Vec<usize> = parsed.iter().map(|p| p.0).collect();
     let keys = s.g.keys();
     let mut sorted = ids.clone();
@@ -145,12 +146,12 @@ fn compare(what: &str, parsed: &Parsed, s: &Session) -> Option<String> {
         if got != want {
             return Some(format!("{what}: ν{id} has edge entries {got:?}, kids() says {want:?}"));
         }
-        if let Some(mv) = s.m.verts.get(id) {
-            if *data != mv.data {
+        if let Some(rd) = real.get(id) {
+            if data != rd {
                 return Some(format!(
-                    "{what}: ν{id} shows data {:?}, last put says {:?}",
+                    "{what}: ν{id} shows data {:?}, the vertex holds {:?}",
                     data.as_ref().map(|d| crate::ops::hex(d)),
-                    mv.data.as_ref().map(|d| crate::ops::hex(d))
+                    rd.as_ref().map(|d| crate::ops::hex(d))
                 ));
             }
         }
@@ -264,10 +265,9 @@ impl C18 {
         let max_id = *keys.last().unwrap();
         let n2 = ctx.rng.range(maxdeg.max(1), 16);
         let cap2 = (max_id + 1 + 2 + ctx.rng.below(20)).max(4);
-        let datas: BTreeMap<usize, Vec<u8>> = keys
-            .iter()
-            .filter_map(|v| s.m.verts.get(v).and_then(|x| x.data.clone()).map(|d| (*v, d)))
-            .collect();
+        let real_a = crate::rec::real_data(s.g.as_ref());
+        let datas: BTreeMap<usize, Vec<u8>> =
+            real_a.iter().filter_map(|(v, d)| d.clone().map(|d| (*v, d))).collect();
         let mut order = keys.clone();
         ctx.rng.shuffle(&mut order);
         let built = guarded(|| {
@@ -306,7 +306,16 @@ impl C18 {
                 grouped.insert(a);
                 grouped.insert(t);
             }
-            (b.to_xml(), b.to_dot(), b.keys())
+            // facts: did this build really reach the same abstract graph?
+            let same_edges = keys.iter().all(|v| {
+                let mut x = b.kids(*v);
+                let mut y = s.g.kids(*v);
+                x.sort();
+                y.sort();
+                x == y
+            });
+            let same = same_edges && b.keys() == keys && crate::rec::real_data(b.as_ref()) == real_a;
+            (b.to_xml(), b.to_dot(), if same { b.keys() } else { vec![usize::MAX] })
         });
         let (x2, d2, k2) = match built {
             Ok(r) => r,
@@ -317,7 +326,7 @@ impl C18 {
             }
         };
         if k2 != keys {
-            ctx.c.inc("c18.canon-twin-has-other-vertices");
+            ctx.c.inc("c18.canon-twin-build-did-not-reach-the-same-graph(skipped)");
             return None;
         }
         self.canon_checked += 1;
@@ -459,6 +468,7 @@ pub fn parse_debug(txt: &str) -> Result<Parsed, String> {
 impl C20 {
     fn check(&mut self, s: &mut Session, ctx: &mut Ctx, all: bool) -> Option<String> {
         let keys = s.g.keys();
+        let real = crate::rec::real_data(s.g.as_ref());
         let keyset: BTreeSet<usize> = keys.iter().copied().collect();
         let mut kids: BTreeMap<usize, Vec<(sodg::Label, usize)>> = BTreeMap::new();
         for v in &keys {
@@ -486,12 +496,12 @@ impl C20 {
                         if got != want {
                             return Some(format!("{name}: ν{id} lists edges {got:?}, kids() says {want:?}"));
                         }
-                        if let Some(mv) = s.m.verts.get(id) {
-                            if *data != mv.data {
+                        if let Some(rd) = real.get(id) {
+                            if data != rd {
                                 return Some(format!(
-                                    "{name}: ν{id} shows data {:?}, last put says {:?}",
+                                    "{name}: ν{id} shows data {:?}, the vertex holds {:?}",
                                     data.as_ref().map(|d| crate::ops::hex(d)),
-                                    mv.data.as_ref().map(|d| crate::ops::hex(d))
+                                    rd.as_ref().map(|d| crate::ops::hex(d))
                                 ));
                             }
                         }
@@ -525,12 +535,12 @@ impl C20 {
             if got != want {
                 return Some(format!("v_print({v}) = {vp:?} lists labels {got:?}, kids() has {want:?}"));
             }
-            if let Some(mv) = s.m.verts.get(v) {
-                if has != mv.data.is_some() {
+            if let Some(rd) = real.get(v) {
+                if has != rd.is_some() {
                     return Some(format!(
                         "v_print({v}) = {vp:?} {} the data marker, but the vertex {}",
                         if has { "shows" } else { "lacks" },
-                        if mv.data.is_some() { "has data" } else { "has no data" }
+                        if rd.is_some() { "has data" } else { "has no data" }
                     ));
                 }
             }
@@ -543,14 +553,15 @@ impl C20 {
             starts.truncate(4);
         }
         for v in starts {
-            // reachable set
+            // vertices reachable from v through present vertices only; an edge into an absent id is a
+            // dangling leaf (what inspect prints below it is not judged: the statement is silent there)
             let mut reach = BTreeSet::new();
             let mut todo = vec![v];
-            let mut ok = true;
+            let mut dangling = false;
             while let Some(x) = todo.pop() {
                 if !keyset.contains(&x) {
-                    ok = false;
-                    break;
+                    dangling = true;
+                    continue;
                 }
                 if reach.insert(x) {
                     for (_, t) in &kids[&x] {
@@ -558,9 +569,8 @@ impl C20 {
                     }
                 }
             }
-            if !ok {
-                ctx.c.inc("c20.start-with-dangling-edge-skipped");
-                continue;
+            if dangling {
+                ctx.c.inc("c20.inspect-starts-with-dangling-edges");
             }
             if let Some(f) = &mut s.sink {
                 use std::io::Write;
@@ -576,7 +586,7 @@ impl C20 {
             ctx.c.inc("c20.inspects-parsed");
             let total: usize = reach.iter().map(|u| kids[u].len()).sum();
             let nlines = txt.lines().count();
-            if nlines > 1 + total {
+            if !dangling && nlines > 1 + total {
                 return Some(format!(
                     "inspect({v}) printed {nlines} lines; the reachable part has only {total} edges (some edge is listed more than once)"
                 ));
@@ -596,7 +606,7 @@ impl C20 {
                         }
                     }
                     for u in by.keys() {
-                        if !reach.contains(u) {
+                        if !dangling && !reach.contains(u) {
                             return Some(format!("inspect({v}) lists edges under ν{u}, which is not reachable"));
                         }
                     }
